@@ -118,7 +118,7 @@ def run(R, tier, seed):
             tasks.append(('enum', R, seed, name, base, part, nparts))
             arm.append('enum')
     # past failing inputs and relatives: unfaulted through the oracle and every systematic single fault around them
-    regress = [('regress/' + n, t.encode('utf-8')) for n, t in c16.REGRESSION_INPUTS]
+    regress = [('regress/' + n, t.encode('utf-8', 'surrogatepass')) for n, t in c16.REGRESSION_INPUTS]
     tasks.append(('free', R, regress))
     arm.append('regress')
     for name, base in regress:
